@@ -317,6 +317,7 @@ impl Observer for Obs {
                 AccessKind::FetchAdd => {
                     log(format_args!("at {} faa {} {} {}", loc, o, a.read, a.arg))
                 }
+                AccessKind::Swap => log(format_args!("at {} swp {} {} {}", loc, o, a.read, a.arg)),
             }
         }
         set_track(prev);
